@@ -313,4 +313,31 @@ theorem analyse_envSub {cfg : Cfg} (hx : cfg.WritesExact) (he : cfg.EraseAlike) 
     (hb : bodiesExtFree cfg P = true) : EnvSub (analyse cfg P) :=
   analyseFrom_envSub hx he P [] (fun f fi h => by simp [Env.find] at h) hb
 
+
+/-! ### locals and parameters are erased: a function that writes nothing else changes nothing -/
+
+theorem erase_eq_nil_of_all_mem {xs drop : List Sym} (h : ∀ s ∈ xs, s ∈ drop) : erase xs drop = [] := by
+  unfold erase
+  apply List.filter_eq_nil_iff.mpr
+  intro s hs
+  simp [h s hs]
+
+theorem funInfo_changes_nil {cfg : Cfg} (hl : cfg.erasesLocalChanges = true) (hp : cfg.erasesParamChanges = true) (env : Env)
+    (fd : FunDecl) (h : ∀ s ∈ collectStmt cfg.visit (collectWrites cfg env) fd.body, s ∈ fd.locals ∨ s ∈ fd.params) :
+    (funInfo cfg env fd).changes = [] := by
+  simp only [funInfo, hl, hp, if_true]
+  apply erase_eq_nil_of_all_mem
+  intro s hs
+  have h1 := mem_erase_left hs
+  have hnl : s ∉ fd.locals := by
+    unfold erase at hs
+    have := (List.mem_filter.mp hs).2
+    simpa using this
+  by_cases hc : cfg.collectsChanges = true
+  · rw [if_pos hc] at h1
+    rcases h s h1 with h2 | h2
+    · exact absurd h2 hnl
+    · exact h2
+  · rw [if_neg hc] at h1; cases h1
+
 end UtapModel.Effect
